@@ -449,16 +449,47 @@ func ruleR37(p *Prog) []Ob {
 				k++
 				ob := mk(fmt.Sprintf("cutoff-ends-scan#%d", k), p.at(iff))
 				// can the newer edge get back to a Consume or to another message of the batch?
-				seen := map[*ssa.BasicBlock]bool{}
-				work := []*ssa.BasicBlock{hb.Succs[newer]}
+				// (boolean flags set on the way - `done = true; break` with `!done` in the loop
+				// condition - are followed as constants through the phis)
 				again := false
-				for len(work) > 0 {
-					x := work[len(work)-1]
-					work = work[:len(work)-1]
-					if seen[x] {
-						continue
+				seenSt := map[string]bool{}
+				var walkF func(pred, x *ssa.BasicBlock, env map[ssa.Value]bool)
+				walkF = func(pred, x *ssa.BasicBlock, env map[ssa.Value]bool) {
+					env2 := map[ssa.Value]bool{}
+					for k, v := range env {
+						env2[k] = v
 					}
-					seen[x] = true
+					pi := -1
+					for i, pr := range x.Preds {
+						if pr == pred {
+							pi = i
+						}
+					}
+					for _, ins := range x.Instrs {
+						phi, ok := ins.(*ssa.Phi)
+						if !ok {
+							break
+						}
+						delete(env2, phi)
+						if pi >= 0 && pi < len(phi.Edges) {
+							e := phi.Edges[pi]
+							if c, ok := e.(*ssa.Const); ok && c.Value != nil && c.Value.Kind() == constant.Bool {
+								env2[phi] = constant.BoolVal(c.Value)
+							} else if v, ok := env[e]; ok {
+								env2[phi] = v
+							}
+						}
+					}
+					var keys []string
+					for k, v := range env2 {
+						keys = append(keys, fmt.Sprintf("%s=%v", k.Name(), v))
+					}
+					sort.Strings(keys)
+					sig := fmt.Sprintf("%d|%s", x.Index, strings.Join(keys, ","))
+					if seenSt[sig] {
+						return
+					}
+					seenSt[sig] = true
 					if x == hb {
 						again = true
 					}
@@ -467,8 +498,29 @@ func ruleR37(p *Prog) []Ob {
 							again = true
 						}
 					}
-					work = append(work, x.Succs...)
+					succs := x.Succs
+					if i2, ok := terminator(x).(*ssa.If); ok {
+						c2, pos2 := i2.Cond, true
+						for {
+							u, ok := c2.(*ssa.UnOp)
+							if !ok || u.Op != token.NOT {
+								break
+							}
+							pos2, c2 = !pos2, u.X
+						}
+						if v, known := env2[c2]; known {
+							if v == pos2 {
+								succs = x.Succs[:1]
+							} else {
+								succs = x.Succs[1:2]
+							}
+						}
+					}
+					for _, sx := range succs {
+						walkF(x, sx, env2)
+					}
 				}
+				walkF(hb, hb.Succs[newer], map[ssa.Value]bool{})
 				if again {
 					ob.Status, ob.Msg = Violated, "after a message newer than the cut-off the scan goes on: what is selected is no longer a prefix, and a later message of a skipped key is taken for the first of its key"
 				} else {
